@@ -314,14 +314,27 @@ def validate_all(wd, prefix, verdict, prop):
 
 # ------------------------------------------------------------------ Leg T: real syncers
 
+def load_scale():
+    """other builders share the machine: stretch the deadlines and narrow the fan-out when it is busy"""
+    try:
+        return min(3.0, max(1.0, os.getloadavg()[0] / (os.cpu_count() or 16)))
+    except OSError:
+        return 1.0
+
+
 def leg_t(wd, tier, binary, verdict, scenarios=None, width=None):
     scs = scenarios if scenarios is not None else gen_scenarios(tier, vlib.seed())
+    scale = load_scale()
+    if scale > 1.0:
+        log("  T: machine load %.1f: deadlines x %.1f" % (os.getloadavg()[0], scale))
+        for s in scs:
+            s["deadlineMs"] = int(s["deadlineMs"] * scale)
     inp = os.path.join(wd, "converge_in.json")
-    json.dump({"scenarios": scs, "width": width or (14 if tier == "quick" else 16), "retry": True}, open(inp, "w"))
+    json.dump({"scenarios": scs, "width": width or max(6, int((14 if tier == "quick" else 16) / scale)), "retry": True}, open(inp, "w"))
     for f in os.listdir(wd):
         if f.startswith("synctrace-"):
             os.remove(os.path.join(wd, f))
-    res = vlib.go_run(binary, "TestConverge", wd, env={"VERIF_IN": inp}, timeout=3000 if tier == "thorough" else 600)
+    res = vlib.go_run(binary, "TestConverge", wd, env={"VERIF_IN": inp}, timeout=6000 if tier == "thorough" else 1800)
     if res["counts"].get("infra", 0) > max(2, len(scs) // 20):
         raise vlib.Infra("too many scenarios could not be set up: %s" % res["notes"][:5])
     verdict.add_all(res["mismatches"])
